@@ -120,6 +120,7 @@ func checkC07(c *Check) {
 
 	// ---------- 4: error locations ----------
 	checkErrorLocations(x)
+	checkReportDestination(x)
 
 	// ---------- 5: container relay ----------
 	checkSyncRelay(c)
@@ -159,6 +160,10 @@ func checkC07(c *Check) {
 	// while the callback decides, nothing else talks to the container (any other command would be taken for approval)
 	importObs(c, "C17", "C17.5/env-mutex", "12/one-call-at-a-time", nil)
 	c.Expect("12/one-call-at-a-time", 10)
+	// a lost connection never reads as the go-ahead: whenever the init's 'done' is closed an error was recorded, and
+	// what is recorded is non-nil (rules of C11.5 for the container side)
+	importObs(c, "C11", "C11.5/destroy", "14/lost-connection-is-an-error", func(o Obligation) bool { return strings.Contains(o.Key, "(containerServer)") })
+	c.Expect("14/lost-connection-is-an-error", 2)
 }
 
 // isSyncChannel: v is element 1 of the [2]int parameter, possibly moved (phi with the scratch cursor).
@@ -849,4 +854,104 @@ func checkPrepareExec(c *Check, r *e1Result) {
 			}
 		}
 	}
+}
+
+// checkReportDestination: every failure report of the child is written to the sync channel. For each exit helper
+// the parameter that becomes the descriptor of its write(2) is found; at every call in the child the argument
+// given for it belongs to the same variable (φ-web) as the descriptor the child reads the parent's go-ahead from.
+func checkReportDestination(x *e1ctx) {
+	c, r, p := x.c, x.r, x.c.P
+	const rule = "13/report-destination"
+	child := r.Child
+	if child == nil {
+		c.Undecided(rule, "forkexec.child", "-", "child function not resolved")
+		return
+	}
+	// φ-webs of the child
+	parent := map[ssa.Value]ssa.Value{}
+	var find func(v ssa.Value) ssa.Value
+	find = func(v ssa.Value) ssa.Value {
+		if pv, ok := parent[v]; ok && pv != v {
+			r := find(pv)
+			parent[v] = r
+			return r
+		}
+		return v
+	}
+	union := func(a, b ssa.Value) {
+		if _, isC := b.(*ssa.Const); isC {
+			return
+		}
+		ra, rb := find(a), find(b)
+		if ra != rb {
+			parent[ra] = rb
+		}
+	}
+	for _, b := range child.Blocks {
+		for _, in := range b.Instrs {
+			if ph, ok := in.(*ssa.Phi); ok {
+				for _, e := range ph.Edges {
+					union(ph, stripConv(e))
+				}
+			}
+		}
+	}
+	// the sync descriptor: fd of the read(2) calls of the child
+	var syncFd ssa.Value
+	for _, ci := range callInstrs(child) {
+		if nm, _ := calleeOf(ci); isRawSyscallName(nm) {
+			if nr, ok := constInt(ci.Common().Args[0]); ok && nr == p.Sys("SYS_READ") {
+				syncFd = stripConv(ci.Common().Args[1])
+			}
+		}
+	}
+	if syncFd == nil {
+		c.Undecided(rule, "forkexec.child:sync-read", p.Pos(child.Pos()), "the child's read of the sync channel was not found")
+		return
+	}
+	// descriptor parameter of each exit helper
+	fdParam := map[*ssa.Function]int{}
+	for ef := range r.ExitFns {
+		idx := -1
+		for _, ci := range callInstrs(ef) {
+			if nm, _ := calleeOf(ci); isRawSyscallName(nm) {
+				if nr, ok := constInt(ci.Common().Args[0]); ok && nr == p.Sys("SYS_WRITE") {
+					if pr, ok := stripConv(ci.Common().Args[1]).(*ssa.Parameter); ok {
+						for i, q := range ef.Params {
+							if q == pr {
+								idx = i
+							}
+						}
+					}
+				}
+			}
+		}
+		if idx >= 0 {
+			fdParam[ef] = idx
+		}
+	}
+	n, bad, badPos := 0, "", ""
+	for _, ci := range callInstrs(child) {
+		_, callee := calleeOf(ci)
+		idx, ok := fdParam[callee]
+		if callee == nil || !ok || idx >= len(ci.Common().Args) {
+			continue
+		}
+		n++
+		a := stripConv(ci.Common().Args[idx])
+		if find(a) != find(syncFd) && bad == "" {
+			bad, badPos = describe(a), p.Pos(ci.Pos())
+		}
+	}
+	if badPos == "" {
+		badPos = p.Pos(child.Pos())
+	}
+	switch {
+	case n == 0 || len(fdParam) == 0:
+		c.Undecided(rule, "forkexec.child:reports", badPos, "no failure report with a descriptor argument found")
+	default:
+		c.Cond(bad == "", rule, "forkexec.child:reports", badPos, fmt.Sprintf("all %d failure reports are written to the sync channel", n),
+			"a failure report is written to descriptor "+bad+", which is not the sync channel: the parent never learns that the launch failed (and a descriptor of the program receives the record)")
+	}
+	c.Expect(rule, 1)
 }
